@@ -100,6 +100,60 @@ fn judge_relations<F: Fl>(c: &Case, l: &mut Local) {
     if g2 != g || (rec_finite && h2 != h) || g.sample_count() != n || h.sample_count() != n {
         l.violation(format!("Geometric/Harmonic|{}|append-vs-from_iter", F::TY), "append*n and from_iter build different states".to_string(), case(), json!({"geometric": [format!("{:?}", g), format!("{:?}", g2)], "harmonic": [format!("{:?}", h), format!("{:?}", h2)]}));
     }
+    // states assembled from shards with `+=` and `+` describe the same sample (mean and standard error
+    // within a few ulps of the single-pass state: merging rounds differently, nothing more)
+    if n >= 4 && rec_finite {
+        let (c1, c2) = (n / 3, n / 3 + (n - n / 3) / 2);
+        let shards = [&x[..c1], &x[c1..c2], &x[c2..]];
+        let mut gm_ = Geometric::<F>::new();
+        let mut hm_ = Harmonic::<F>::new();
+        let mut gp = Geometric::<F>::new();
+        let mut hp = Harmonic::<F>::new();
+        for sh in shards {
+            let v = sh.to_vec();
+            gm_ += Geometric::<F>::from_iter(&v).unwrap();
+            hm_ += Harmonic::<F>::from_iter(&v).unwrap();
+            gp = Geometric::<F>::from_iter(&v).unwrap() + gp;
+            hp = hp + Harmonic::<F>::from_iter(&v).unwrap();
+        }
+        l.eval();
+        l.count("sharded states judged");
+        let close = |a: F, b: F| -> bool {
+            let (a, b) = (a.f(), b.f());
+            a == b || (a - b).abs() <= 64.0 * F::U * a.abs().max(b.abs()) || (a.is_nan() && b.is_nan())
+        };
+        // the standard error inherits the conditioning of the variance in the transformed space:
+        // relative error ~ u * (1 + mean^2 / variance) of ln x resp. 1/x
+        let kappa = |t: &Arithmetic<F>| -> f64 {
+            let (m, v) = (t.sample_mean().f(), t.sample_variance().f());
+            if v > 0.0 {
+                1.0 + m * m / v
+            } else {
+                f64::INFINITY
+            }
+        };
+        // (exp amplifies the relative error of the log-mean by |log-mean|)
+        let amp = 1.0 + a_log.sample_mean().f().abs();
+        let (kg, kh) = (kappa(&a_log) + amp, kappa(&a_rec));
+        let close_g = |a: F, b: F| -> bool {
+            let (a, b) = (a.f(), b.f());
+            a == b || (a - b).abs() <= 64.0 * F::U * amp * a.abs().max(b.abs())
+        };
+        let sem_close = |a: F, b: F, k: f64| -> bool {
+            let (a, b) = (a.f(), b.f());
+            a == b || (a - b).abs() <= 64.0 * F::U * k * a.abs().max(b.abs()) || (a.is_nan() && b.is_nan())
+        };
+        for (name, ok, got, want) in [
+            ("Geometric +=", gm_.sample_count() == n && close_g(gm_.sample_mean(), g.sample_mean()) && sem_close(gm_.sample_sem(), g.sample_sem(), kg), (gm_.sample_mean().f(), gm_.sample_sem().f()), (g.sample_mean().f(), g.sample_sem().f())),
+            ("Geometric +", gp.sample_count() == n && close_g(gp.sample_mean(), g.sample_mean()) && sem_close(gp.sample_sem(), g.sample_sem(), kg), (gp.sample_mean().f(), gp.sample_sem().f()), (g.sample_mean().f(), g.sample_sem().f())),
+            ("Harmonic +=", hm_.sample_count() == n && close(hm_.sample_mean(), h.sample_mean()) && sem_close(hm_.sample_sem(), h.sample_sem(), kh), (hm_.sample_mean().f(), hm_.sample_sem().f()), (h.sample_mean().f(), h.sample_sem().f())),
+            ("Harmonic +", hp.sample_count() == n && close(hp.sample_mean(), h.sample_mean()) && sem_close(hp.sample_sem(), h.sample_sem(), kh), (hp.sample_mean().f(), hp.sample_sem().f()), (h.sample_mean().f(), h.sample_sem().f())),
+        ] {
+            if !ok {
+                l.violation(format!("{}|{}|sharded-state-differs", name, F::TY), format!("a state assembled from three shards with `{}` does not describe the same sample as the single-pass state", name), case(), json!({"(mean, sem) merged": [got.0, got.1], "(mean, sem) single pass": [want.0, want.1], "n": n}));
+            }
+        }
+    }
     // sample means: G = exp(mean ln x), H = 1/mean(1/x); H <= G <= A
     let (gm, hm, am) = (g.sample_mean().f(), h.sample_mean().f(), a_x.sample_mean().f());
     let want_g = a_log.sample_mean().exp().f();
@@ -456,7 +510,7 @@ pub fn run(run: &Arc<Run>) {
             }
         }
     });
-    let mut req: Vec<String> = vec!["strictly positive extreme injected (subnormal / MIN_POSITIVE / tiny / huge)".into(), "geometric interval judged".into(), "harmonic interval judged".into(), "sample_sem judged".into(), "constant positive sample".into(), "harmonic: reciprocal-space interval straddles 0 (proviso; left to C11)".into()];
+    let mut req: Vec<String> = vec!["strictly positive extreme injected (subnormal / MIN_POSITIVE / tiny / huge)".into(), "geometric interval judged".into(), "harmonic interval judged".into(), "sample_sem judged".into(), "constant positive sample".into(), "sharded states judged".into(), "harmonic: reciprocal-space interval straddles 0 (proviso; left to C11)".into()];
     for s in ["Geometric", "Harmonic"] {
         for c in ["0", "-0", "negative", "-min_positive", "-inf"] {
             req.push(format!("rejection:{}:{}", s, c));
